@@ -594,9 +594,10 @@ Proof.
   - inv H. unfold upd_store. destruct (ensure_rest p s) as (E1 & E2 & E3 & E4).
     destruct (cln_cons_other (KUpd p) (calls s) eq_refl) as [K1 K2].
     apply Left; cbn; rewrite ?ensure_chans, ?ensure_calls; auto.
-  - destruct (has (KUpd p) (calls s) && can_enq s); inv H.
+  - destruct (upd_enq p s) as [s1|] eqn:E; inv H. apply upd_enq_spec in E; subst.
     destruct (cln_rm1_other (KUpd p) (calls s) eq_refl) as [K1 K2].
     apply (Left (set_queue s (queue s ++ [p]))); auto.
+  - destruct (has (KUpd p) (calls s) && negb (can_enq s) && upd_blocking); inv H. exact I.
   - inv H. eapply q_sub_reg; eauto.
   - destruct (has (KSub c p false) (calls s)); inv H.
     destruct (cln_repl_other (KSub c p false) (KSub c p true) (calls s) eq_refl eq_refl) as [K1 K2].
